@@ -150,6 +150,10 @@ def decl_source(d, doc=False, derive_debug_enums=True, vis="pub "):
                 out.append("    #[cfg(all())]")
             elif v.get("cfg") == "off":
                 out.append("    #[cfg(any())]")
+            elif v.get("cfg") == "onoff":
+                out.extend(["    #[cfg(all())]", "    #[cfg(any())]"])
+            elif v.get("cfg") == "offon":
+                out.extend(["    #[cfg(any())]", "    #[cfg(all())]"])
             out.append("    %s = %d," % (v["name"], bits_to_int(v["d"])))
         out.append("}")
     for nd in d["nested"]:
